@@ -192,32 +192,35 @@ def ob_mulscalar(ctx):
     def set_str(it_, args):
         w.mpz_set(args[0], Z); w.set_str_args = (args[1], args[2]); return 0
     w.hooks['@__gmpz_init_set_str'] = set_str
+    from .. import stubs
+    stubs.install_strconv(w, Z)
     chars = core.obj_words('chars', [0x3231], 8); chars.size = 3
     sobj = Obj(32, 'string', 8); sobj.cells[0] = Ptr(chars, 0); sobj.cells[1] = 2; sobj.cells[2] = 0; sobj.cells[3] = 0
     a = Obj(24, 'a', 8); av = [alg.var('a%d' % i) for i in range(3)]
     for i in range(3): a.cells[i] = FV(av[i])
     res = Obj(24, 'r', 8)
-    def go(it):
-        it.call(fn, [Ptr(res, 0), Ptr(a, 0), Ptr(sobj, 0)]); return [res.cells[i] for i in range(3)]
-    # fromString branches on nothing symbolic except inside GMP stubs; run once
-    try: outs = go(it)
+    try:
+        it.call(fn, [Ptr(res, 0), Ptr(a, 0), Ptr(sobj, 0)]); outs = [res.cells[i] for i in range(3)]
     except Terminated as e: return viol('mulScalar/terminated', 'mulScalar terminated: %s' % e, replay=dict(event=str(e)))
     outs = [alg.toz3(fmode.cls_of(o)) for o in outs]
     r = congr_query(alg, outs, [alg.toz3(x) * Z for x in av], tmo=60)
     if r.status == 'unsat': return ok('result ≡ a·Z for every integer Z the string denotes', sample=dict(op='mulScalar'))
     if r.status == 'sat':
-        zv = None
-        # model of Z is not in tr.vars (an Int variable): re-solve directly for the witness
-        return confirm_mulscalar(ctx, fn)
+        # Z is an Int variable (not a word): recover the witness with a direct query and replay it on the native helper
+        tr = smt.T(); s_ = z3.Solver(); s_.set('timeout', 60000)
+        g = z3.And([tr.any((o - alg.toz3(x) * Z) % P == 0) for o, x in zip(outs, av)]); s_.add(tr.side); s_.add(z3.Not(g))
+        cands = []
+        if s_.check() == z3.sat:
+            m = s_.model(); zv = m.eval(Z, model_completion=True).as_long(); cands.append((zv, [m.eval(alg.toz3(x), model_completion=True).as_long() % P or 1 for x in av]))
+        cands += [(-(P + 1), [1, 2, 3]), (2**64 + 5, [1, 2, 3]), (5 * P + 1, [3, 1, 4]), (-1, [1, 2, 3])]
+        from . import C15
+        for zv, avals in cands:
+            out = C15.hrun(ctx, 'mulScalar3', avals[0], avals[1], avals[2], str(zv)).split()
+            exp = [x * zv % P for x in avals]
+            if len(out) != 3 or [int(v) % P for v in out] != exp:
+                return viol('mulScalar', 'Goldilocks3::mulScalar(%s, "%d") = %s, exact product is %s' % (avals, zv, out, exp), replay=dict(oid='mulScalar', vals=avals, Z=zv))
+        return inconc('mulScalar congruence not proved, but no candidate string reproduces natively')
     return inconc(r.info)
-
-def confirm_mulscalar(ctx, fn):
-    """concrete witness search is delegated to C15 (fromString); here a native run on the C15 witness -p-1"""
-    # build a std::string natively is not possible through ctypes without a helper: use the library's fromString on the same witness via C15's replay
-    from . import C15
-    okr, text = C15.replay(ctx, dict(kind='fromString', Z=-(P + 1), radix=10))
-    if okr: return viol('mulScalar/fromString', 'Goldilocks3::mulScalar multiplies by Goldilocks::fromString(b), which is wrong for b = "%d": %s' % (-(P + 1), text), replay=dict(kind='fromString', Z=-(P + 1), radix=10, via='C15'))
-    return inconc('mulScalar congruence not proved and the fromString witness does not reproduce')
 
 # ---- isOne: bit-precise
 def ob_isone(ctx):
